@@ -173,7 +173,9 @@ def params_list(tier):
         for msgs in ((("small", "retry"),), (("small", "best"),), (("small", "none"),), (("frag2", "retry"),),
                      (("small", "retry"), ("small", "none", 7)), (("small", "best"), ("small", "retry", 6), ("small", "none", 8)),
                      (("frag2", "best"), ("small", "none", 7))):
-            for lat in ((8,) if tier == "quick" else (8, 20, 40)):
+            # one-way 8 / 20 / 28 ticks: RTT 0.25 / 0.62 / 0.88 s - above the resend interval, below the message timeout.
+            # (RTT >= outgoing_timeout is outside the statement: every ack then arrives 'after the timeout elapsed'.)
+            for lat in ((8,) if tier == "quick" else (8, 20, 28)):
                 out.append((direction, msgs, None, 0, "cs", lat))
         # a second message queued exactly when the resend of the first is due, acks late
         for at in ((7,) if tier == "quick" else (6, 7, 8, 13)):
